@@ -3,7 +3,7 @@
    give up its share of an action that other flows still use.  `release_in_source` is a proof
    obligation: it fails to check on a tree without the release. *)
 From Coq Require Import ZArith NArith List Bool.
-From NG Require Import Gen.LifeConsts V2.Life V2.Life_proofs V2.Life_scope.
+From NG Require Import Gen.LifeConsts V2.Life V2.Life_proofs V2.Life_scope V2.Life_count V2.Life_activation V2.Life_cleanup.
 Import ListNotations.
 Open Scope N_scope.
 
@@ -11,6 +11,16 @@ Definition end_scope_now : nat -> st -> uid -> N -> res st := end_scope scope_re
 
 Lemma source_shape : stop_guards_checked = true /\ scope_release_shared = true.
 Proof. split; reflexivity. Qed.
+
+(* the clean-up of the current source never discards the parent of a running or activated instance *)
+Lemma cleanup_shape : cleanup_keeps_needed_parents = true.
+Proof. reflexivity. Qed.
+
+(* runs of the modelled operations incl. the clean-up AS IN THE CURRENT SOURCE keep the invariants *)
+Theorem brun_now_inv : forall rel fuel l s s',
+  Inv s -> famk s -> brun cleanup_keeps_needed_parents rel fuel l s = Ok s' ->
+  boks cleanup_keeps_needed_parents rel fuel l s -> Inv s' /\ famk s'.
+Proof. rewrite cleanup_shape. exact brun_inv_fam. Qed.
 
 Lemma end_scope_now_true : end_scope_now = end_scope true.
 Proof. unfold end_scope_now. destruct source_shape as (_ & ->). reflexivity. Qed.
